@@ -31,6 +31,7 @@
 //   det_below_double_ulp, ill_conditioned, trunc_plus_rounding, trunc_plus_rounding_M_le_2^35,
 //   rounding_amplified_by_conditioning, hp_one_unit_outside_bounding_box   (definitions at the place of use)
 #include "geom.h"
+#include "wrap.h"
 #include "clipper2/clipper.core.h"
 #include <cmath>
 
@@ -553,10 +554,23 @@ static Case gen_mul(Rng& r, uint64_t, int mul) {
   c.p64["T"] = T; return c;
 }
 
+static uint64_t inv_mod_2_64(uint64_t c) { uint64_t x = c; for (int i = 0; i < 6; ++i) x *= 2 - c * x; return x; }   // c odd
+
 // ---- ProductsAreEqual
 static Path64 pae_item(int64_t a, int64_t b, int64_t c, int64_t d) { Path64 p; p.emplace_back(a, b); p.emplace_back(c, d); return p; }
 static Path64 gen_pae_item(Rng& r, std::map<std::string, long long>& cnt) {
-  int pat = r.irange(0, 9);
+  int pat = r.irange(0, 11);
+  if (pat == 10) {                                      // a*b - c*d == +-2^w exactly, all values below 2^L (L from w/2 up)
+    int64_t v[4]; int w = 0;
+    if (wrap_twin_any(r, 63, v, &w)) { cnt["pae_gen_products_differ_by_exact_power_of_two"]++; if (w == 64) cnt["pae_gen_products_differ_by_exactly_2^64"]++; return pae_item(v[0], v[1], v[2], v[3]); }
+    pat = 0;
+  }
+  if (pat == 11) {                                      // congruent modulo 2^64, otherwise unrelated
+    cnt["pae_gen_products_congruent_mod_2^64"]++;
+    uint64_t a = r.next(), b = r.next(), c = r.next() | 1, d = a * b * inv_mod_2_64(c);
+    if (r.coin()) { int sh = r.irange(1, 40); a >>= sh; c = (c >> r.irange(1, 40)) | 1; d = a * b * inv_mod_2_64(c); }
+    return pae_item((int64_t)a, (int64_t)b, (int64_t)c, (int64_t)d);
+  }
   auto flip = [&](int64_t v) { return (r.coin() && v != I64MIN) ? -v : v; };
   if (pat <= 1) {                                       // random magnitudes
     cnt["pae_gen_random"]++;
@@ -630,7 +644,18 @@ static Case gen_pae(Rng& r, uint64_t, Ctx& ctx, int mul) {
 // ---- point triples
 static Path64 tri_item(Point64 a, Point64 b, Point64 c) { Path64 p; p.push_back(a); p.push_back(b); p.push_back(c); return p; }
 static Path64 gen_tri_item(Rng& r, int B, std::map<std::string, long long>& cnt) {
-  int pat = r.irange(0, 9);
+  int pat = r.irange(0, 10);
+  if (pat == 10) {                                      // cross product exactly +-2^w: zero in a w-bit word, not zero
+    int64_t v[4]; int w = 0;
+    if (B >= 9 && wrap_twin_any(r, std::min(B, 61), v, &w)) {
+      cnt["tri_gen_cross_product_exact_power_of_two"]++; if (w == 64) cnt["tri_gen_cross_product_exactly_2^64"]++;
+      // cross(p1,p2,p3) = (p2-p1).x*(p3-p2).y - (p2-p1).y*(p3-p2).x = a*b - c*d
+      Point64 p1(rbits(r, std::min(B, 60)), rbits(r, std::min(B, 60)));
+      Point64 p2(p1.x + v[0], p1.y + v[2]), p3(p2.x + v[3], p2.y + v[1]);
+      return tri_item(p1, p2, p3);
+    }
+    pat = 6;
+  }
   if (pat <= 5) {
     // collinear (or mirrored) by construction: p2 = p1 + k1*(dx,dy), p3 = p2 + k2*(dx,+-dy); |k*d| < 2^B, B <= 61
     int Bc = std::min(B, 61);
